@@ -1,3 +1,52 @@
 import Driver.Loop
-/- placeholder: the C09 view has no executable model yet -/
-def main : IO Unit := Drv.runLoop fun _ => .atom "bad-op"
+import PMV.Model.IndexWire
+/- line-protocol handlers for the C09 view (indexing) -/
+namespace Drv.C09
+open PMV PMV.NpIndex PMV.Index PMV.IndexWire
+
+def err (msg : String) : Sx := .list [.atom "driver-error", .atom msg]
+
+def handle : List Sx → Sx
+  | [.atom "get", sh, masks, ents] =>
+    match sh.nats? with
+    | some shape =>
+      match parseMasks shape masks, parseEntries ents with
+      | some ms, some es => renderResults shape (getitemObj shape ms es)
+      | _, _ => err "operand"
+    | none => err "shape"
+  | [.atom "iter", sh, masks] =>
+    match sh.nats? with
+    | some shape =>
+      match parseMasks shape masks with
+      | some ms => .list ((iterate shape ms).map (renderResults shape))
+      | none => err "operand"
+    | none => err "shape"
+  | [.atom "ndenum", sh, masks] =>
+    match sh.nats? with
+    | some shape =>
+      match parseMasks shape masks with
+      | some ms => .list ((ndenumerate shape ms).map fun (i, r) => .list [Sx.ofNats i, renderResults shape r])
+      | none => err "operand"
+    | none => err "shape"
+  | [.atom "len", sh] =>
+    match sh.nats? with
+    | some shape => match len shape with
+      | some n => Sx.ofNat n
+      | none => .atom "TypeError"
+    | none => err "shape"
+  | [.atom "np", sh, ents] =>
+    -- kernel suite: the NumPy model alone
+    match sh.nats?, (ents.toList?).bind (·.mapM parseNEntry) with
+    | some shape, some es =>
+      match npIndex shape es with
+      | some s => .list [Sx.ofNats s.shape, .list ((indices s.shape).map fun o => Sx.ofNat (ravel shape (s.src o)))]
+      | none => .atom "IndexError"
+    | _, _ => err "operand"
+  | _ => err "c09-op"
+
+end Drv.C09
+
+def main : IO Unit := Drv.runLoop fun x =>
+  match x with
+  | .list (.atom "c09" :: rest) => Drv.C09.handle rest
+  | _ => .atom "bad-op"
